@@ -30,3 +30,11 @@ Theorem C14_never_early : forall s x k r, tables_ok s -> get_doc s k = Some r ->
   get_doc (sr_store (sstep s x SExpire)) k = Some r.
 Proof. exact fire_never_early. Qed.
 Print Assumptions C14_never_early.
+
+(* the whole executable checker of C14 - after every step the armed deadline covers every stored expiry; a
+   firing tombstones exactly the due documents, each with a deletion event, and leaves every other row as it
+   was; a call leaves the expiry its arguments say - accepts every history of the model *)
+From Rosmar Require Import KvC14Trace.
+Theorem C14_checker_accepts_every_model_history : forall c : scase, wf_case c -> chk_C14_kv (c, srun c) = true.
+Proof. exact C14_kv_sound. Qed.
+Print Assumptions C14_checker_accepts_every_model_history.
